@@ -2,7 +2,9 @@ package main
 
 import (
 	"bufio"
+	"encoding/json"
 	"fmt"
+	"os/exec"
 	"go/constant"
 	"go/token"
 	"go/types"
@@ -121,6 +123,9 @@ func checkC16(c *Ctx, r *Report) {
 	r.Floor("C16.R1", len(obs), 60, "panic obligations")
 
 	checkAnswered(c, r, li, "C16.R4")
+	if c.Tier == "thorough" {
+		bceCrossCheck(c, r, reach, obs)
+	}
 }
 
 // checkAnswered (R4): every return of processRequest is preceded on every path
@@ -382,4 +387,101 @@ func enumExhausted(c *Ctx, facts []fact) bool {
 		}
 	}
 	return false
+}
+
+// bceCrossCheck (C16.R3, thorough tier): the compiler's prove pass lists every
+// bounds check it could not eliminate. Each such site inside a function that
+// is reachable from the untrusted-input roots must coincide (file:line) with an
+// index/slice obligation enumerated above — otherwise the enumeration missed a
+// potential index panic and the result is undecided. Compiling is not running.
+func bceCrossCheck(c *Ctx, r *Report, reach map[*ssa.Function]bool, obs []*panicOb) {
+	tmp, err := os.MkdirTemp("", "verif-bce-")
+	if err != nil {
+		r.Undecided("C16.R3", "compiler cross-check", "-", err.Error())
+		return
+	}
+	defer os.RemoveAll(tmp)
+	ov := map[string]map[string]string{"Replace": {}}
+	for path, content := range overlayFor(c.Repo) {
+		f := filepath.Join(tmp, strings.ReplaceAll(strings.TrimPrefix(path, c.Repo), "/", "_"))
+		os.WriteFile(f, content, 0o644)
+		ov["Replace"][path] = f
+	}
+	ovb, _ := json.Marshal(ov)
+	ovFile := filepath.Join(tmp, "overlay.json")
+	os.WriteFile(ovFile, ovb, 0o644)
+	cmd := exec.Command("go", "build", "-overlay", ovFile, "-gcflags=reservoir/...=-l -d=ssa/check_bce/debug=1", "./...")
+	cmd.Dir = c.Repo
+	cmd.Env = append(os.Environ(), "GOCACHE="+filepath.Join(tmp, "cache"), "GOFLAGS=-mod=mod", "GOWORK=off")
+	out, _ := cmd.CombinedOutput()
+	covered := map[string]bool{}
+	for _, o := range obs {
+		if o.kind == "index" || o.kind == "slice" {
+			covered[c.InstrPos(o.in)] = true
+		}
+	}
+	// functions by file:line range
+	type span struct {
+		file       string
+		from, to   int
+		fn         *ssa.Function
+	}
+	var spans []span
+	for _, fn := range c.ModFns {
+		if fn.Syntax() == nil {
+			continue
+		}
+		p1 := c.Fset.Position(fn.Syntax().Pos())
+		p2 := c.Fset.Position(fn.Syntax().End())
+		rel, _ := filepath.Rel(c.Repo, p1.Filename)
+		spans = append(spans, span{rel, p1.Line, p2.Line, fn})
+	}
+	n, nReach, missing := 0, 0, []string{}
+	sc := bufio.NewScanner(strings.NewReader(string(out)))
+	for sc.Scan() {
+		line := sc.Text()
+		if !strings.Contains(line, "Found IsInBounds") && !strings.Contains(line, "Found IsSliceInBounds") {
+			continue
+		}
+		parts := strings.SplitN(line, ":", 4)
+		if len(parts) < 4 {
+			continue
+		}
+		file := strings.TrimPrefix(parts[0], "./")
+		var ln int
+		fmt.Sscanf(parts[1], "%d", &ln)
+		n++
+		inReach := false
+		for _, s := range spans {
+			if s.file == file && s.from <= ln && ln <= s.to && reach[s.fn] && !contractPanics[fnKey(s.fn)] {
+				inReach = true
+			}
+		}
+		if !inReach {
+			continue
+		}
+		nReach++
+		key := fmt.Sprintf("%s:%d", file, ln)
+		if !covered[key] {
+			missing = append(missing, key)
+		}
+	}
+	missing = uniq(missing)
+	if n == 0 {
+		r.Undecided("C16.R3", "compiler cross-check", "-", "the compiler reported no unproven bounds checks at all (build failed?): "+firstLines(string(out), 3))
+		return
+	}
+	if len(missing) > 0 {
+		r.Undecided("C16.R3", "compiler-reported bounds checks are all enumerated", "-", "the compiler keeps bounds checks at sites the obligation enumeration did not list: "+strings.Join(missing, ", "))
+	} else {
+		r.Ok("C16.R3", "compiler-reported bounds checks are all enumerated", "-", fmt.Sprintf("%d unproven bounds checks reported by the compiler in module code, %d inside reachable functions, all coincide with an enumerated index/slice obligation", n, nReach))
+	}
+}
+
+func firstLines(s string, n int) string {
+	ls := strings.Split(s, "\n")
+	if len(ls) > n {
+		ls = ls[:n]
+	}
+	return strings.Join(ls, " | ")
 }
